@@ -1,20 +1,29 @@
 (** Properties/C14.v — "Hostile but well-formed object graphs end in an error, not a crash", the proved part:
     (1) the guarded recursion scheme of typed loading over an ARBITRARY finite object graph, (2) the repaired
-    name/number tree walks, (3) one theorem per numeric-parameter site, quantified over the whole Rust integer
-    type (boundary values are instances).  Where the code as it is can panic or blow up, the theorem excludes
-    exactly a decidable class and a […_refuted] theorem gives the witness that is replayed on the real code.
-    Only statements, each closed by [exact] of a lemma proved in Safety/*Proofs.v. *)
-From PdfV Require Import Base.Prelude Gen.Generated Lex.Lexer Codec.Model
-  Safety.Front Safety.FrontProofs Safety.Numeric Safety.NumericProofs Safety.Walks Safety.WalksProofs.
+    name/number tree walks and the colour-space budget, (3) one theorem per numeric-parameter site, quantified over the
+    whole Rust integer type (boundary values are instances).
+    OWN sites (models Safety/Numeric.v, Safety/Walks.v; proofs Safety/*Proofs.v): function.rs (PostScript calculator,
+    type 2 loading), encoding.rs (/Differences), tree walks, colour spaces, the recursion guard, fax geometry.
+    IMPORTED sites (4): the model is the owning area's model of the code AS IT IS NOW, kept faithful by that area's
+    check, and the theorem is that area's lemma (or, for object streams and the crypt key length, a lemma proved in
+    Safety/Imported.v about that area's model): object streams (ObjStm, C11), cross-reference streams (XRef, C02),
+    CID /W and Type0 (Font, C19), page counts (PageTree, C07), predictor geometry / every decoder (Codec, C05),
+    crypt key length (Crypt, C06), importer over cyclic graphs (Import, C20), guard keyed by thread (Cache, C13).
+    Where the code as it is can still panic, the theorem states the exact class and a […_refuted] theorem gives the
+    witness that is replayed on the real code (fax geometry only).
+    Only statements, each closed by [exact]. *)
+From PdfV Require Import Base.Prelude Gen.Generated Lex.Lexer
+  Safety.Front Safety.FrontProofs Safety.Numeric Safety.NumericProofs Safety.Walks Safety.WalksProofs Safety.Imported.
+From PdfV Require Codec.Model Codec.Dispatch Codec.Pairing Codec.ChainProofs ObjStm.Model ObjStm.Proofs XRef.Model XRef.StreamProofs
+  Font.Model Font.WidthProofs PageTree.Model PageTree.Proofs Crypt.Model Import.Model Import.Theorems Cache.Tables.
 
-(** the full claim for the modelled sites; false of the code as it is (see the […_refuted] theorems) *)
+(** the full claim for the numeric sites of this area; false of the code as it is (fax geometry, C14-j) *)
 Definition C14_full_statement : Prop :=
-  (forall first offsets data_len index, never_crashes (objstm_slice first offsets data_len index)) /\
-  (forall tolerant num w0 w1 w2 data_len, never_crashes (xref_section_entries tolerant num w0 w1 w2 data_len)) /\
-  (forall items, never_crashes (widths_site items)) /\
-  (forall v r bits cf, never_crashes (crypt_key_size v r bits cf)) /\
-  (forall kids page_nr, never_crashes (page_site kids page_nr)) /\
-  (forall p c cols d, never_crashes (unpredict p c cols d)).
+  (forall rnd ops st, never_crashes (ps_exec rnd ops st)) /\
+  (forall domain_len range_len c0_len c1_len, never_crashes (fn2_load domain_len range_len c0_len c1_len)) /\
+  (forall items, never_crashes (differences items)) /\
+  (forall columns rows, columns < U32 -> rows < U32 -> never_crashes (fax_capacity columns rows)) /\
+  (forall buf_len columns, never_crashes (fax_check buf_len columns)).
 
 (** 1. recursion guard (file.rs: StorageResolver::get): on every finite graph closed under "refers to", from every
     node, whether errors propagate or are swallowed: terminates with recursion depth <= |graph| + 1, the drop-guard
@@ -66,87 +75,90 @@ Theorem C14_differences : forall items, exists l, differences items = Ok l /\ (l
 Proof. exact differences_total. Qed.
 Print Assumptions C14_differences.
 
-(** ObjectStream offsets: safe exactly when first + offset fits usize; header loop linear in the data *)
-Theorem C14_objstm_slice : forall first offsets data_len index,
-  objstm_fits first offsets = true -> lenN offsets < U64 -> never_crashes (objstm_slice first offsets data_len index).
-Proof. exact objstm_slice_safe. Qed.
+(** 4. IMPORTED sites — theorems of the owning areas about the current code *)
+
+(** object streams (stream.rs / file.rs; ObjStm/Model.v, correspondence in C11's check).  The offsets are added with
+    checked_add now (fix dff5e30, the former C14-h): no slice computation can panic … *)
+Theorem C14_objstm_slice : forall first offsets datalen index site,
+  ObjStm.Model.object_slice first offsets datalen index <> Panic site.
+Proof. exact ObjStm.Proofs.object_slice_no_panic. Qed.
 Print Assumptions C14_objstm_slice.
-Theorem C14_objstm_header : forall n data, never_crashes (objstm_header (S (length data)) n (mkLx 0 data) []).
+(** … the header loop of any declared /N over any bytes ends in a value or an error … *)
+Theorem C14_objstm_header : forall n s, never_crashes (ObjStm.Model.header_offsets n s).
 Proof. exact objstm_header_total. Qed.
 Print Assumptions C14_objstm_header.
-Theorem C14_objstm_refuted :
-  objstm_slice 8 [18446744073709551615] 6 0 = Panic 502 /\ objstm_fits 8 [18446744073709551615] = false.
-Proof. exact objstm_slice_refuted. Qed.
-Print Assumptions C14_objstm_refuted.
+(** … and so does the whole resolution of member [index] (header, slice, bounds test, parse), for any /First, /N, index *)
+Theorem C14_objstm_member : forall R, total_resolver R -> forall flags first nobj data index,
+  never_crashes (ObjStm.Model.resolve_member R flags first nobj data index).
+Proof. exact objstm_member_total. Qed.
+Print Assumptions C14_objstm_member.
 
-(** xref stream sections: no panic when the product fits; entries bounded by the data when a row has any width *)
-Theorem C14_xref_section : forall tolerant num w0 w1 w2 data_len,
-  w0 + w1 + w2 < U64 -> num * (w0 + w1 + w2) < U64 -> never_crashes (xref_section_entries tolerant num w0 w1 w2 data_len).
-Proof. exact xref_section_safe. Qed.
+(** xref stream sections (parse_xref.rs; XRef/Model.v, C02's check; fix 3d3f9ef, the former C14-k / C01-b / C01-c):
+    no panic for all widths, counts and data; a successful read consumed a positive number of bytes per entry *)
+Theorem C14_xref_section : forall first num width data allow,
+  no_panic (XRef.Model.parse_xref_section_from_stream first num width data allow).
+Proof. exact XRef.StreamProofs.stream_section_no_panic. Qed.
 Print Assumptions C14_xref_section.
-Theorem C14_xref_section_i32 : forall tolerant num w0 w1 w2 data_len,
-  num <= 2147483647 -> w0 <= 2147483647 -> w1 <= 2147483647 -> w2 <= 2147483647 ->
-  never_crashes (xref_section_entries tolerant num w0 w1 w2 data_len).
-Proof. exact xref_section_i32_safe. Qed.
-Print Assumptions C14_xref_section_i32.
-Theorem C14_xref_section_cost : forall tolerant num w0 w1 w2 data_len n,
-  xref_section_entries tolerant num w0 w1 w2 data_len = Ok n -> 0 < w0 + w1 + w2 -> n * (w0 + w1 + w2) <= data_len.
-Proof. exact xref_section_cost. Qed.
+Theorem C14_xref_section_cost : forall first num w0 w1 w2 data allow s rest,
+  XRef.Model.parse_xref_section_from_stream first num [w0; w1; w2] data allow = Ok (s, rest) ->
+  0 < w0 + w1 + w2 /\ lenN data = lenN rest + lenN (XRef.Model.entries s) * (w0 + w1 + w2) /\
+  lenN (XRef.Model.entries s) <= lenN data.
+Proof. exact XRef.StreamProofs.stream_section_bounded. Qed.
 Print Assumptions C14_xref_section_cost.
-Theorem C14_xref_section_refuted :
-  xref_section_entries false 4294967295 2147483647 2147483647 2147483647 0 = Panic 602 /\
-  xref_section_entries false 4294967295 0 0 0 0 = Ok 4294967295.
-Proof. exact xref_section_refuted. Qed.
-Print Assumptions C14_xref_section_refuted.
 
-(** CID /W: no panic without an empty array; the cost of a range is NOT bounded by the input (refuted) *)
-Theorem C14_widths : forall items sets top, widths_no_empty_array items = true ->
-  (forall z, In (WInt z) items -> (z <= 2147483647)%Z) -> (forall n, In (WArr n) items -> n < U32) ->
-  never_crashes (widths_go items sets top).
-Proof. exact widths_safe. Qed.
+(** CID /W and Type0 (font.rs: Font::widths; Font/Model.v, C19's check; fixes 0479768, 5645a25, 5d6eb4a — the former
+    C14-b, C14-c, C14-n): ANY /W vector — negative or huge codes, empty lists, missing operands — and any
+    /DescendantFonts list (empty too) *)
+Theorem C14_widths : forall dw items, Font.WidthProofs.clean (Font.Model.cid_widths dw items).
+Proof. exact Font.WidthProofs.cid_widths_no_panic. Qed.
 Print Assumptions C14_widths.
-Theorem C14_widths_refuted :
-  widths_site [WInt 0; WArr 0] = Panic 702 /\
-  widths_site [WInt 0; WInt (-1); WInt 5] = Ok (18446744073709551616, 18446744073709551616) /\
-  widths_site [WInt 0; WInt 2147483647; WInt 5] = Ok (2147483648, 2147483648).
-Proof. exact widths_refuted. Qed.
-Print Assumptions C14_widths_refuted.
+Theorem C14_type0 : forall (A : Type) (ds : list A) f, (forall d, Font.WidthProofs.clean (f d)) ->
+  Font.WidthProofs.clean (Font.Model.type0_widths ds f).
+Proof. exact @Font.WidthProofs.type0_no_panic. Qed.
+Print Assumptions C14_type0.
 
-(** crypt key length: the only panics are 8 * n (801) and the Rc4::new assertion on an empty key (802) *)
-Theorem C14_crypt_sites : forall v r bits cf s, crypt_key_size v r bits cf = Panic s -> s = 801 \/ s = 802.
-Proof. exact crypt_key_size_sites. Qed.
-Print Assumptions C14_crypt_sites.
-Theorem C14_crypt_refuted :
-  crypt_key_size 2 3 0 None = Panic 802 /\ crypt_key_size 4 4 128 (Some (0, Some 536870912)) = Panic 801 /\
-  crypt_key_size 4 4 128 (Some (1, Some 0)) = Panic 802 /\ crypt_key_size 2 3 128 None = Ok 16.
-Proof. exact crypt_key_size_refuted. Qed.
-Print Assumptions C14_crypt_refuted.
+(** crypt key length (crypt.rs: Decoder::from_password; Crypt/Model.v, C06's check; fix 9e4f745 — the former C14-d):
+    revisions 2-4 with ANY /V, /Length, crypt filter /Length: a value or an error (MD5 returns 16 bytes) *)
+Theorem C14_crypt_key_length : forall md5, (forall x, exists h, md5 x = Ok h /\ length h = 16%nat) ->
+  forall sha256 sha384 sha512 aes_enc aes_dec prep fuel d id pass, Crypt.Model.d_r d <= 4 ->
+  never_crashes (Crypt.Model.from_password md5 sha256 sha384 sha512 aes_enc aes_dec prep fuel d id pass).
+Proof. exact from_password_r234_total. Qed.
+Print Assumptions C14_crypt_key_length.
 
-(** page tree: no panic when the counts of every level sum to less than 2^32; depth <= sf_page_depth by construction *)
-Theorem C14_page_counts : forall depth kids page_nr, counts_fit depth kids = true -> never_crashes (page_limited depth kids page_nr).
-Proof. exact page_limited_safe. Qed.
+(** page tree (types.rs: PageTree::page_limited, File::get_page; PageTree/Model.v, C07's check; fix 02e5245 — the former
+    C14-e): EVERY store — untrue counts, foreign /Parent links, cycles, any depth *)
+Theorem C14_page_counts : forall st root i, i <= PageTree.Model.u32_max ->
+  no_panic (PageTree.Model.load_root st (S (length st)) root) /\
+  forall rt, no_panic (PageTree.Model.get_page st (S (length st)) rt i).
+Proof. exact PageTree.Proofs.page_api_total. Qed.
 Print Assumptions C14_page_counts.
-Theorem C14_page_counts_refuted :
-  page_site [PTree 2147483647 [PLeaf]; PTree 2147483647 [PLeaf]; PTree 2147483647 [PLeaf]] 4294967295 = Panic 901 /\
-  counts_fit 16 [PTree 2147483647 [PLeaf]; PTree 2147483647 [PLeaf]; PTree 2147483647 [PLeaf]] = false /\
-  page_site [PLeaf; PTree 2 [PLeaf; PLeaf]; PLeaf] 2 = Ok tt.
-Proof. exact page_counts_refuted. Qed.
-Print Assumptions C14_page_counts_refuted.
 
-(** predictor geometry: safe when columns * colors + 1 fits usize; otherwise exactly sites 104 / 105 *)
-Theorem C14_predictor : forall predictor colors columns decoded,
-  as_usize columns * as_usize colors + 1 < U64 -> never_crashes (unpredict predictor colors columns decoded).
-Proof. exact unpredict_safe. Qed.
+(** predictor geometry and every decoder (enc.rs; Codec/, C05's check; fixes 4b95f59, b531c77, df00eae — the former
+    C14-i, C14-m): every filter, chain and stream dictionary, any parameters, any bytes *)
+Theorem C14_decoders : forall izlib iraw ld, Codec.ChainProofs.oracles_total izlib iraw ld ->
+  (forall f d, never_crashes (Codec.Dispatch.decode izlib iraw ld f d)) /\
+  (forall fs d, never_crashes (Codec.Dispatch.decode_chain izlib iraw ld fs d)) /\
+  (forall f pv d, never_crashes (Codec.Pairing.stream_data izlib iraw ld f pv d)).
+Proof. exact decoders_total. Qed.
+Print Assumptions C14_decoders.
+Theorem C14_predictor : forall p d, no_panic (Codec.Model.unpredict p d).
+Proof. exact Codec.ChainProofs.unpredict_no_panic. Qed.
 Print Assumptions C14_predictor.
-Theorem C14_predictor_sites : forall predictor colors columns decoded s,
-  unpredict predictor colors columns decoded = Panic s -> s = 104 \/ s = 105.
-Proof. exact unpredict_sites. Qed.
-Print Assumptions C14_predictor_sites.
-Theorem C14_predictor_refuted : unpredict 12 (-1) (-1) [0; 1; 2] = Panic 104 /\ unpredict 12 1 (-1) [0; 1; 2] = Panic 105.
-Proof. exact unpredict_refuted. Qed.
-Print Assumptions C14_predictor_refuted.
 
-(** fax geometry *)
+(** importer (build.rs: Importer; Import/Model.v, C20's check; fix d5dc342): terminates on every finite graph, cyclic or not *)
+Theorem C14_import_total : forall fetch g roots fuel,
+  (forall i gn st ln, Import.Theorems.ok_or_err (fetch i gn st ln)) ->
+  (Import.Model.fuel_for g (map (fun r => PdfV.Syn.Prim.PRef (fst r) (snd r)) roots) <= fuel)%nat ->
+  Import.Theorems.ok_or_err (Import.Model.import_roots fetch g fuel roots Import.Model.st0).
+Proof. exact Import.Theorems.import_total. Qed.
+Print Assumptions C14_import_total.
+
+(** the recursion guard is keyed by thread in the source (fix 83677a2): [guarded] above is the projection on one thread *)
+Theorem C14_guard_per_thread : cache_chain_per_thread = true.
+Proof. exact Cache.Tables.chain_table. Qed.
+Print Assumptions C14_guard_per_thread.
+
+(** 5. fax geometry (enc.rs: fax_decode — unchanged code, open C14-j): exactly the stated class panics *)
 Theorem C14_fax_capacity : forall columns rows, columns < U32 -> rows < U32 ->
   (columns * rows <= ISIZE_MAX -> fax_capacity columns rows = Ok (columns * rows)) /\
   (ISIZE_MAX < columns * rows -> fax_capacity columns rows = Panic 1002).
@@ -159,8 +171,8 @@ Print Assumptions C14_fax_refuted.
 
 Theorem C14_full_statement_refuted : ~ C14_full_statement.
 Proof.
-  intros H. destruct H as (H & _). destruct (H 8 [18446744073709551615] 6 0) as [Hp _].
-  apply (Hp 502). exact (proj1 objstm_slice_refuted).
+  intros H. destruct H as (_ & _ & _ & _ & H). destruct (H 0 0) as [Hp _].
+  apply (Hp 1003). exact (proj1 (proj2 fax_refuted)).
 Qed.
 Print Assumptions C14_full_statement_refuted.
 
@@ -169,7 +181,7 @@ Theorem C14_guards_in_source :
   ps_roll_len_guard = 1 /\ ps_roll_mod_guard = 1 /\ ps_index_guard = 1 /\ ps_parse_get = 1 /\ diff_wrapping = 1.
 Proof. exact guards_table. Qed.
 Print Assumptions C14_guards_in_source.
-Theorem C14_budgets_in_source : (0 <? sf_page_depth) = true /\ (0 <? tree_depth) = true /\ (0 <? cs_depth) = true.
+Theorem C14_budgets_in_source : (0 <? tree_depth) = true /\ (0 <? cs_depth) = true.
 Proof. exact depth_table. Qed.
 Print Assumptions C14_budgets_in_source.
 
